@@ -200,6 +200,7 @@ type Session struct {
 	Replies    map[string]string // step id -> full reply text sent
 	AuthLines  []string          // client lines during AUTH exchanges (raw)
 	AuthCmds   []string          // AUTH command lines
+	VrfyArgs   []string          // arguments of the VRFY commands received
 	Cleartext  []byte            // every byte received before TLS (whole session if no TLS); set when the session ends
 	tapMu      sync.Mutex
 	tap        *tapConn
@@ -509,7 +510,7 @@ func (s *Server) serve(rawConn net.Conn, implicitTLS bool, sess *Session) {
 		// step id
 		var step string
 		switch verb {
-		case "EHLO", "HELO", "NOOP", "RSET", "AUTH":
+		case "EHLO", "HELO", "NOOP", "RSET", "AUTH", "VRFY":
 			step = fmt.Sprintf("%s#%d", strings.ToLower(verb), sess.next(verb))
 		case "MAIL":
 			step = fmt.Sprintf("mail#%d", sess.next("MAIL"))
@@ -793,6 +794,13 @@ func (s *Server) serve(rawConn net.Conn, implicitTLS bool, sess *Session) {
 			c.reply(final)
 		case "NOOP":
 			if send("250 2.0.0 ok ["+step+"]") == -1 {
+				return
+			}
+		case "VRFY":
+			sess.mu.Lock()
+			sess.VrfyArgs = append(sess.VrfyArgs, cmd.rest)
+			sess.mu.Unlock()
+			if send("250 2.1.5 <"+"someone@"+s.Name+"> ["+step+"]") == -1 {
 				return
 			}
 		case "RSET":
